@@ -9,6 +9,7 @@ theorem display_eq (fmt : F → String) (s : ExponentialMovingAverage F) :
     display fmt s = "EMA(" ++ toString s.period ++ ")" := rfl
 theorem default_eq : (default_ : Option (ExponentialMovingAverage F)) = some (fresh 9) := by
   unfold default_
+  try simp only [gen_helper]
   rw [new_eq]
   simp [unwrap]
 
